@@ -478,10 +478,11 @@ Definition is_empty {A} (l : list A) : bool := match l with [] => true | _ => fa
 
 Record load_args := mkArgs { a_app : Z; a_wait : bool; a_tries : Z; a_count : bool }.
 
-(* the retry loop; [atts] collects, latest first, the map each attempt was addressed to (ghost) *)
+(* the retry loop; [atts] collects, latest first, the map each attempt was addressed to and the state
+   of the machine at that moment (ghost: it influences nothing) *)
 Fixpoint load_loop (fuel : nat) (bins : list (list Z)) (a : load_args) (total : Z)
-         (c : ctrl) (w : world) (unl : appmap) (tries : Z) (atts : list appmap)
-  : result (ctrl * world * appmap * list appmap) :=
+         (c : ctrl) (w : world) (unl : appmap) (tries : Z) (atts : list (appmap * machine))
+  : result (ctrl * world * appmap * list (appmap * machine)) :=
   if negb (is_empty unl) && load_continue tries (a_tries a) then
     match fuel with
     | O => OutOfFuel
@@ -495,17 +496,17 @@ Fixpoint load_loop (fuel : nat) (bins : list (list Z)) (a : load_args) (total : 
                 else Ok (w1, false))
                (fun wb =>
                   if snd wb
-                  then load_loop k bins a total c1 (fst wb) [] tries1 (unl :: atts)
+                  then load_loop k bins a total c1 (fst wb) [] tries1 ((unl, w_m w) :: atts)
                   else bind (check_map c1 (fst wb) unl) (fun cwm =>
                          let '(c2, w2, unl1) := cwm in
-                         load_loop k bins a total c2 w2 unl1 tries1 (unl :: atts))))
+                         load_loop k bins a total c2 w2 unl1 tries1 ((unl, w_m w) :: atts))))
     end
   else Ok (c, w, unl, atts).
 
 Definition load_fuel (a : load_args) : nat := S (Z.to_nat (a_tries a + 1)).
 
 Definition load_application (bins : list (list Z)) (c : ctrl) (w : world) (am : appmap) (a : load_args)
-  : result (ctrl * world * outcome * list appmap) :=
+  : result (ctrl * world * outcome * list (appmap * machine)) :=
   bind (load_loop (load_fuel a) bins a (core_count am) c w am load_tries0 []) (fun r =>
     let '(c1, w1, unl, atts) := r in
     if negb (is_empty unl) then Ok (c1, w1, LoadingError unl, rev atts)
